@@ -233,7 +233,9 @@ pub fn check_invariants(w: &World, net: &Net, inv: &mut Inv, what: &str) {
                 let missing = if cr.kind == "PieceDone" { missing_before.saturating_sub(1) } else { missing_before };
                 if newly && i < cr.before.len() {
                     if let Status::Reserved(k) = cr.before[i] {
-                        let own = cr.peer_piece_before == Some(i);
+                        // (on an Unchoke the peer was choking until now: whatever index the manager still remembers for
+                        // it is stale, the piece is not "its own")
+                        let own = cr.kind != "RecvUnchoke" && cr.peer_piece_before == Some(i);
                         if k > 0 && !own && missing >= 10 {
                             inv.fails.push((
                                 "c13-assigned-piece-already-being-fetched-outside-end-game".into(),
